@@ -587,6 +587,9 @@ type Plan struct {
 	// ExtraReal: the real run may send one more statement after Real (Save of a
 	// struct whose key matches no row falls back to an upsert).
 	ExtraReal bool
+	// Refused: the operation has no condition: it is refused with ErrMissingWhereClause (dry run and
+	// real run alike), the real run sends nothing (Real is empty); Dry holds what was built before the refusal.
+	Refused bool
 	// ExtraRealMany: any number of further statements may follow (FindInBatches fetching further batches)
 	ExtraRealMany bool
 }
@@ -624,6 +627,9 @@ func (c *Chain) Plan(m Mode) Plan {
 		return Plan{Dry: [][]interface{}{ins}, Real: append([][]interface{}{c.firstOrSelectLeaves(m), ins}, hook(1)...), DryAt: []int{1}}
 	}
 	e := c.Expected(m)
+	if c.Refused {
+		return Plan{Dry: [][]interface{}{e}, DryAt: []int{0}, Refused: true}
+	}
 	p := Plan{Dry: [][]interface{}{e}, Real: [][]interface{}{e}, DryAt: []int{0}, Hidden: c.HiddenQuery(), ExtraRealMany: c.Fin == "batches",
 		ExtraReal: c.Kind == "save" && c.CrKind == "struct" && c.Rows[0].ID != 0}
 	switch {
@@ -951,6 +957,12 @@ func (c *Chain) Describe(literalLimit bool) Info {
 	}
 	if c.ColMode != "" {
 		w.info.Classes["columns:"+c.ColMode+"-"+c.Kind] = true
+	}
+	if c.Refused {
+		w.info.Classes["refused:"+c.Kind] = true
+		if c.EmptyCond != "" {
+			w.info.Classes["refused:empty-"+c.EmptyCond] = true
+		}
 	}
 	if len(c.ModelIDs) > 0 {
 		w.info.Classes["model:slice"] = true
